@@ -1,4 +1,7 @@
-"""setup: parse every specification with SANY and make sure the implementation imports."""
+"""setup: parse every specification with SANY, make sure the implementation imports, and run the
+binding self-test: a recorded trace must be accepted, and the same trace with ONE corrupted
+field must be rejected at that step with the clause that owns the field."""
+import copy
 import glob
 import os
 
@@ -6,17 +9,65 @@ import common
 import tlc
 
 
+def binding_selftest():
+    import traces
+    ops = [
+        {"op": "insert", "p": {"t": 1, "m": 1, "tg": [1, -2, -2], "fd": [2, -2, -2]}, "m": -1, "compact": 0},
+        {"op": "insert", "p": {"t": 2, "m": 2, "tg": [-1, 3, -2], "fd": [-2, 0, -2]}, "m": -1, "compact": 1},
+        {"op": "count", "q": {"k": "tag", "key": 1, "key2": 0, "mf": 0, "op": "exists", "v": 0, "tf": 0}, "m": -1},
+        {"op": "insert", "p": {"t": 0, "m": 1, "tg": [-2, -2, -2], "fd": [-2, -2, 1]}, "m": -1, "compact": 0},
+        {"op": "get_timestamps", "m": -1},
+        {"op": "remove", "q": {"k": "time", "key": 0, "key2": 0, "mf": 0, "op": "ge", "v": 9, "tf": 0}, "m": -1},
+        {"op": "all", "m": -1, "sorted": 1},
+    ]
+    bat = [{"k": "time", "key": 0, "key2": 0, "mf": 0, "op": "le", "v": 1, "tf": 0}]
+    base = traces.record_all([("base", "csv", 1, ops, bat, 3, 3, {"io": True})], nproc=1)[0]
+    variants = [("pristine", None, base)]
+
+    def corrupt(name, clause, fn):
+        t = copy.deepcopy(base)
+        t["id"] = name
+        fn(t["events"])
+        variants.append((name, clause, t))
+    corrupt("count+1", "result", lambda ev: ev[2].__setitem__("res", ev[2]["res"] + 1))
+    corrupt("lost-point", "store", lambda ev: ev[3]["store"].pop(0))
+    corrupt("invalid-after-read", "valid", lambda ev: ev[4].__setitem__("valid", 0))
+    corrupt("index-answer", "index", lambda ev: ev[1]["ix"]["live"].__setitem__(0, [7]))
+    corrupt("temp-left", "tmp", lambda ev: ev[5]["io"].__setitem__("tmp", 1))
+    corrupt("read-wrote", "unchanged", lambda ev: ev[4]["io"].__setitem__("same", 0))
+    corrupt("torn-boundary", "crash", lambda ev: ev[3]["io"]["snaps"].append([{"t": 9, "m": 0, "tg": [-2, -2, -2], "fd": [-2, -2, -2]}]))
+    corrupt("file-lags", "file", lambda ev: ev[1]["io"]["file"].pop())
+    corrupt("raised-read", "raises", lambda ev: ev[2].__setitem__("exc", "KeyError"))
+    corrupt("not-append-only", "append", lambda ev: ev[3]["io"]["calls"][1].__setitem__("prefix", 0))
+    verdicts, _ = traces.judge([t for _, _, t in variants], workers=2)
+    bad = []
+    for name, clause, t in variants:
+        errs = traces.errors(verdicts[t["id"]])
+        got = {e["clause"] for e in errs}
+        if clause is None and errs:
+            bad.append("pristine trace rejected: %r" % (errs,))
+        if clause is not None and clause not in got:
+            bad.append("corruption %s not rejected by clause '%s' (got %s)" % (name, clause, sorted(got)))
+    return bad, len(variants)
+
+
 def main():
-    bad = 0
+    nbad = 0
     for path in sorted(glob.glob(os.path.join(tlc.SPEC, "*.tla"))):
         mod = os.path.basename(path)[:-4]
         ok, out = tlc.sany(mod)
         print("SANY %-22s %s" % (mod, "ok" if ok else "FAILED"))
         if not ok:
             print(out[-2000:])
-            bad += 1
+            nbad += 1
     tf = common.use_repo()
     print("tinyflux imported from", os.path.dirname(tf.__file__))
     os.makedirs(common.EVIDENCE_DIR, exist_ok=True)
     os.makedirs(common.REPLAY_DIR, exist_ok=True)
-    return 2 if bad else 0
+    if not nbad:
+        problems, n = binding_selftest()
+        for p in problems:
+            print("BINDING SELF-TEST FAILED:", p)
+        print("binding self-test: %d trace variants judged, %d problem(s)" % (n, len(problems)))
+        nbad += len(problems)
+    return 2 if nbad else 0
